@@ -9,8 +9,21 @@
   these lists directly, the theorems are parametric in them up to the small obligations
   (`watch` is reserved, `youtube.com` is a domain, no domain is a special host, ...);
 * what the `.url` / `get_export_url` builders of the GoogleDrive records answer on probe
-  values (the builders are inline format strings, not constants)."""
+  values (the builders are inline format strings, not constants);
+* what `normalize_youtube_url` answers on a probe video url with a playlist: the `"&list=%s"` it
+  appends is an inline literal of the function body, not a module-level constant (obligation
+  `youtube_list_infix_unchanged`).  The route literals of `parse_youtube_url` ("/watch", "/v/",
+  "/user/", "youtu.be", ...) are inline too and have no table: they are tied to the model by
+  differential execution only."""
 from translate import generator, lean_str, lean_str_list
+
+
+def _probe(fn, *a):
+    try:
+        r = fn(*a)
+        return r if isinstance(r, str) else "<%r>" % (r,)
+    except Exception as e:  # noqa: the obligation will say so
+        return "<raised %s>" % type(e).__name__
 
 
 def _pat(name, r):
@@ -42,6 +55,9 @@ def gen_c19_youtube():
         "def youtubeChannelIdUrlTemplate : String := %s\n" % lean_str(y.YOUTUBE_CHANNEL_ID_URL_TEMPLATE),
         "def youtubeChannelNameUrlTemplate : String := %s\n" % lean_str(y.YOUTUBE_CHANNEL_NAME_URL_TEMPLATE),
         "def youtubeShortUrlTemplate : String := %s\n" % lean_str(y.YOUTUBE_SHORT_URL_TEMPLATE),
+        "\n/-- `normalize_youtube_url('https://www.youtube.com/watch?v=AAAAAAAAAAA&list=P')`: pins the inline `\"&list=%s\"` -/\n",
+        "def youtubeNormalizeListProbe : String := %s\n"
+        % lean_str(_probe(y.normalize_youtube_url, "https://www.youtube.com/watch?v=AAAAAAAAAAA&list=P")),
         "\n/-- `sorted(YOUTUBE_CHANNEL_NAME_BLACKLIST)` -/\n",
         "def youtubeChannelNameBlacklist : List String := %s\n" % lean_str_list(sorted(y.YOUTUBE_CHANNEL_NAME_BLACKLIST)),
         "\n/-- `YOUTUBE_DOMAINS`, in source order -/\n",
